@@ -1,11 +1,18 @@
 #!/usr/bin/env python3
 """tools/mutcheck.py [Cxx ...] — runs every deliberate property-breaking patch in /verif/mutations/ through its check
 (vcheck --mutant, quick tier) and records in mutations/RESULTS.json whether the check reported a violation."""
-import glob, json, os, subprocess, sys, re, time
+import glob, json, os, subprocess, sys, re, time, fcntl
 V = os.path.dirname(os.path.dirname(os.path.abspath(__file__)))
 only = set(sys.argv[1:])
 resp = os.path.join(V, "mutations", "RESULTS.json")
-res = json.load(open(resp)) if os.path.exists(resp) else {}
+res = {}
+def save():
+    # several mutcheck processes (different check ids) may run at once: merge under a lock
+    with open(resp + ".lock", "w") as lk:
+        fcntl.flock(lk, fcntl.LOCK_EX)
+        cur = json.load(open(resp)) if os.path.exists(resp) else {}
+        cur.update(res)
+        json.dump(cur, open(resp, "w"), indent=1, sort_keys=True)
 cs = json.load(open(os.path.join(V, "checks.json")))
 for p in sorted(glob.glob(os.path.join(V, "mutations", "C*.diff"))):
     name = os.path.basename(p)[:-5]
@@ -35,5 +42,5 @@ for p in sorted(glob.glob(os.path.join(V, "mutations", "C*.diff"))):
     if r.returncode == 2:
         res[name]["tool_error"] = r.stdout[-400:]
     print(name, "detected" if r.returncode == 1 else "NOT DETECTED rc=%d" % r.returncode, classes[:2], flush=True)
-    json.dump(res, open(resp, "w"), indent=1, sort_keys=True)
-json.dump(res, open(resp, "w"), indent=1, sort_keys=True)
+    save()
+save()
